@@ -204,6 +204,30 @@ class Ptr:
     def __eq__(s, t): return isinstance(t, Ptr) and s.b == t.b and (s.o is t.o or (not isBV(s.o) and not isBV(t.o) and s.o == t.o))
     def __hash__(s): return hash((s.b, s.o if not isBV(s.o) else s.o.e.get_id()))
 NULL = Ptr(0, 0)
+class PInt:
+    """integer that is a linear combination of block base addresses plus a constant (LLVM loop idioms compute e.g. -16 - p + q on ptrtoint values);
+    collapses to a plain int as soon as all base coefficients cancel"""
+    __slots__ = ('t', 'o')
+    def __init__(s, t, o): s.t = t; s.o = o
+    @staticmethod
+    def of(x):
+        if isinstance(x, PInt): return x
+        if isinstance(x, Ptr):
+            if isBV(x.o): raise Unsupported('pointer arithmetic on symbolic offset')
+            return PInt({x.b: 1}, x.o) if x.b != 0 else PInt({}, x.o)
+        if isinstance(x, int): return PInt({}, x)
+        raise Unsupported(f'pointer arithmetic with {type(x).__name__}')
+    def norm(s, w=64):
+        t = {b: c for b, c in s.t.items() if c != 0}
+        if not t: return s.o & ((1 << w) - 1)
+        if len(t) == 1 and list(t.values()) == [1]: return Ptr(list(t)[0], s.o)
+        return PInt(t, s.o)
+def pint_op(op, x, y, w):
+    a = PInt.of(x if not isinstance(x, int) else sgn(x, w)); b = PInt.of(y if not isinstance(y, int) else sgn(y, w))
+    sg = 1 if op == 'add' else -1
+    t = dict(a.t)
+    for k, c in b.t.items(): t[k] = t.get(k, 0) + sg * c
+    return PInt(t, a.o + sg * b.o).norm(w)
 class Bits:  # integer view of a symbolic double (type punning through i64 loads)
     __slots__ = ('f',)
     def __init__(s, f): s.f = f
@@ -807,6 +831,10 @@ class Machine:
 
     def ibin(s, op, t, x, y, flags):
         w = t.w; m = (1 << w) - 1
+        if isinstance(x, PInt) or isinstance(y, PInt) or ((isinstance(x, Ptr) or isinstance(y, Ptr)) and op in ('add', 'sub') and not isBV(x) and not isBV(y)
+                                                           and not (isinstance(x, Ptr) and isBV(x.o)) and not (isinstance(y, Ptr) and isBV(y.o))):
+            if op in ('add', 'sub'): return pint_op(op, x, y, w)
+            raise Unsupported(f'int op {op} on pointer-derived integer')
         if isinstance(x, Ptr) or isinstance(y, Ptr):
             if op == 'sub' and isinstance(x, Ptr) and isinstance(y, Ptr) and x.b == y.b:
                 xo = x.o.e if isBV(x.o) else x.o; yo = y.o.e if isBV(y.o) else y.o
